@@ -212,8 +212,11 @@ def rule_denom(ctx):
   ok = bool(calls)
   for e in calls:
     d = as_poly(e.data["args"][1])
-    ps = e.state.env.get("pattern_size")
-    if ps is None or not (d - (sym.mk("pow", Poly.const(2), as_poly(ps)) - 1)).is_zero():
+    # d + 1 = 2^w with w the element of a loop this call sits in (the pattern size, whatever the local is called)
+    pa_ = (d + 1).as_atom()
+    els = [v_ for v_ in e.state.env.values() if isinstance(v_, Poly)]
+    if not (pa_ is not None and pa_.kind == "pow" and as_poly(pa_.args[0]).as_int() == 2 and any(as_poly(pa_.args[1]) == v_ for v_ in els)
+            and any(t_.kind == "sym" for t_ in as_poly(pa_.args[1]).all_atoms())):
       ok = False
     if as_poly(e.data["args"][0]).as_atom() is None or "rsa_info" not in repr(e.data["args"][0]):
       ok = False
@@ -224,15 +227,18 @@ def rule_denom(ctx):
   why = ""
   for e in calls:
     d = as_poly(e.data["args"][1])
-    p_, w_ = e.state.env.get("psize"), e.state.env.get("wsize")
-    if p_ is None or w_ is None:
-      ok = False
-      continue
-    p_, w_ = as_poly(p_), as_poly(w_)
-    num = (sym.mk("pow", Poly.const(2), p_) - 1) * (sym.mk("pow", Poly.const(2), p_ * w_) + 1)
-    den = sym.mk("pow", Poly.const(2), w_) + 1
+    # p (pattern bits) and w (limb bits) are values the path holds (the elements of the two loops), whatever the locals are called
+    cands = [v_ for v_ in e.state.env.values() if isinstance(v_, Poly) and any(t_.kind == "sym" for t_ in v_.all_atoms())]
     da = d.as_atom()
-    if not (da is not None and da.kind == "fdiv" and (da.args[0] - num).is_zero() and (da.args[1] - den).is_zero()):
+    good = False
+    if da is not None and da.kind == "fdiv":
+      for p_ in cands:
+        for w_ in cands:
+          num = (sym.mk("pow", Poly.const(2), p_) - 1) * (sym.mk("pow", Poly.const(2), p_ * w_) + 1)
+          den = sym.mk("pow", Poly.const(2), w_) + 1
+          if (as_poly(da.args[0]) - num).is_zero() and (as_poly(da.args[1]) - den).is_zero():
+            good = True
+    if not good:
       ok = False
       why = "denominator is %r" % (d,)
   ctx.record(R, b.where(), "d = (2^p - 1)(2^(p*w) + 1) / (2^w + 1)", ok, why or "documented formula for p-bit patterns with swapped w-bit words")
